@@ -326,7 +326,10 @@ IndexPartition == /\ SaIsPerm(SaFlat(expr.ix), expr.np)
                   /\ \A i \in 1..expr.ne : Len(expr.ix[i]) = Len(expr.dn[i])
 \* property-level evaluation order: position -> the point the index advertises there
 PBind(x) == [pos \in 1..x.np |-> PosPoint(x, pos - 1)]
-EvalOrder == CanBind(expr) => Bind(expr) = [pos \in 1..expr.np |-> <<PBind(expr)[pos]>>]
+\* (which point lands where; the weights are the subject of Quadrature)
+EvalOrder == CanBind(expr) => LET B == Bind(expr)
+                              IN [pos \in 1..Len(B) |-> [t \in 1..Len(B[pos]) |-> SaNoWeight(B[pos][t])]]
+                                 = [pos \in 1..expr.np |-> <<SaNoWeight(PBind(expr)[pos])>>]
 EvIndexAgrees == expr.ew => expr.ev = expr.ix
 Quadrature == CanIntegrate(expr) => SaBag(IntBag(expr)) = SaBag(SaFlat(expr.dn))
 \* meaning of the operations
